@@ -56,8 +56,9 @@ PROPS = {
         "translators": [{"module": "tr_rules", "func": "gen_rules"}],
         "streams": [
             {"name": "rules", "n_quick": 3000, "n_thorough": 150000, "min_per_proc": 100},
+            {"name": "c04", "n_quick": 700, "n_thorough": 30000, "compare": False, "min_per_proc": 100},
         ],
-        "rule": "same generated queries as C13; additionally the relation returned by the real rewrite_with_differential_privacy is walked: every path from the root to a protected base table must cross a noise-adding Map lying above a Reduce; "
+        "rule": "c04 (executed): DP GROUP BY on a column whose values are public (listed by its type), on databases where some listed value has no row or a single one, noise neutralised: the released keys must be exactly the listed values (a key column computed from the protected rows is an un-noised path); same generated queries as C13; additionally the relation returned by the real rewrite_with_differential_privacy is walked: every path from the root to a protected base table must cross a noise-adding Map lying above a Reduce; "
                 "the driver checks that every node of the real rule-annotated tree carries exactly the rules of the regenerated table (table_ok); non-trivial = at least 2 consistent derivations",
         "trusted_base": COMMON_TRUST + ["translator tools/tr_rules.py + harness `dump rules` (probe nodes per kind/config)", "the lineage audit recognises noise by the presence of `random` in a Map's expressions"],
         "assumptions": ["that a node rewritten by the DP-reduce arm is differentially private is the subject of C01/C03/C04, not of C02"],
